@@ -64,7 +64,7 @@ def measures():
         a(M('pagerank_centrality@' + dom, dom, lambda b, X, e: b.pagerank_centrality(X, .85), N))
         a(M('findwalks@' + dom, dom, lambda b, X, e: b.findwalks(X), (T3, S, S)))
         a(M('matching_ind@' + dom, dom, lambda b, X, e: b.matching_ind(X), (P, P, P)))
-    for dom in ('und_wei', 'dir_wei', 'und_int', 'dir_int'):
+    for dom in ('und_wei', 'dir_wei', 'und_int', 'dir_int', 'und_neartie', 'dir_neartie', 'und_logu'):
         a(M('distance_wei@' + dom, dom, lambda b, X, e: b.distance_wei(X)[0], P))
         a(M('distance_wei_floyd@' + dom, dom, lambda b, X, e: b.distance_wei_floyd(X)[0], P))
         a(M('betweenness_wei@' + dom, dom, lambda b, X, e: b.betweenness_wei(X), N))
@@ -99,7 +99,7 @@ def measures():
     a(M('eigenvector_centrality_und@bin', 'und_bin_conn', lambda b, X, e: b.eigenvector_centrality_und(X), N))
     a(M('subgraph_centrality', 'und_bin', lambda b, X, e: b.subgraph_centrality(X), N))
     a(M('matching_ind_und', 'und_bin', lambda b, X, e: b.matching_ind_und(X), P))
-    for st in (1, 2, 3, 4):
+    for st in (1, 2, 3, 4, 5, 6):
         a(M('gtom:%d' % st, 'und_bin', lambda b, X, e, st=st: b.gtom(X, st), P))
     a(M('edge_nei_overlap_bu', 'und_bin', lambda b, X, e: b.edge_nei_overlap_bu(X), (P, MS, SKIPK)))
     a(M('edge_nei_overlap_bd', 'dir_bin', lambda b, X, e: b.edge_nei_overlap_bd(X), (P, MS, SKIPK)))
@@ -138,7 +138,8 @@ def cases(tier, seed):
     rs = np.random.RandomState(seed + 404)
     sym = [['named', 'cycle', 5], ['named', 'cycle', 6], ['named', 'kab', 2, 3], ['named', 'kab', 3, 3], ['named', 'complete', 5],
            ['named', 'hypercube', 3], ['named', 'circulant', 8, [1, 2]], ['disjoint', ['named', 'cycle', 3], ['named', 'cycle', 3]],
-           ['disjoint', ['named', 'path', 3], ['named', 'path', 3]], ['named', 'star', 6], ['named', 'wheel', 6], ['named', 'path', 6],
+           ['disjoint', ['named', 'path', 3], ['named', 'path', 3]], ['named', 'star', 6], ['named', 'wheel', 6], ['named', 'path', 6], ['named', 'path', 8], ['named', 'path', 10],
+           ['named', 'path', 12], ['named', 'prufer', 11, 3], ['named', 'lollipop', 3, 7], ['named', 'cycle', 11],
            ['named', 'grid', 2, 3], ['iso', ['named', 'cycle', 4], 2], ['named', 'ring_of_cliques', 3, 3], ['named', 'barbell', 3, 2]]
     recs = [(g, False) for g in sym + G.structured_und(min(nmax, 10), seeds=(seed,))[::3]] + \
            [(g, True) for g in G.structured_dir(min(nmax, 10), seeds=(seed,))]
@@ -162,12 +163,15 @@ def inputs_for(A, directed, ws):
         d['dir_bin'] = A
         d['dir_wei'] = G.weigh(A, 'real', ws, False)
         d['dir_int'] = G.weigh(A, 'int', ws, False).astype(float)
+        d['dir_neartie'] = G.weigh(A, 'neartie', ws, False)
         if O.is_strongly_connected(A) and n >= 2:
             d['dir_wei_strong'] = d['dir_wei']
     else:
         d['und_bin'] = A
         d['und_wei'] = G.weigh(A, 'real', ws, True)
         d['und_int'] = G.weigh(A, 'int', ws, True)
+        d['und_neartie'] = G.weigh(A, 'neartie', ws, True)
+        d['und_logu'] = G.weigh(A, 'logu', ws, True)
         sg = G.weigh(A, 'signed', ws, True)
         d['signed_und'] = sg
         if O.is_connected(A) and n >= 2 and A.any():
